@@ -184,7 +184,7 @@ func (e *Emulator) evalRegsFully(ex expr.Expr, s *Step) expr.Expr {
 // memory storage.
 func (e *Emulator) memValue(key expr.Key, addr model.Addr, w expr.Width) expr.Const {
 	if val, ok := e.State.Mems.Load(key, addr, w); ok {
-		return val.(expr.Const)
+		return loadedConst(val)
 	}
 
 	for _, intv := range e.State.Mems.Missing(key, addr, w).Intervals() {
@@ -208,7 +208,14 @@ func (e *Emulator) memValue(key expr.Key, addr model.Addr, w expr.Width) expr.Co
 			w, addr))
 	}
 
-	return val.(expr.Const)
+	return loadedConst(val)
+}
+
+// loadedConst converts an expression loaded from memory into a constant. A
+// value composed of several writes is an expression combining those constants,
+// not a constant itself, so it has to be folded first.
+func loadedConst(val expr.Expr) expr.Const {
+	return exprtransform.ConstFold(val).(expr.Const)
 }
 
 func (e *Emulator) evalMemoryFully(ex expr.Expr, s *Step) expr.Expr {
